@@ -414,5 +414,5 @@ def run_once(ctx):
         return
     import witness
 
-    witness.run_witnesses(ctx, "P2", ["c07"])
+    witness.run_witnesses(ctx, "P2", ["C07"])
     witness.unsafe_lint_crosscheck(ctx, "P1")
